@@ -186,6 +186,8 @@ class DeviceConn:
 
     def _h_ConnectRequest(self, msg: Any) -> None:
         if self.cfg.answer_connect:
+            if self.cfg.invalid_password:
+                self.dev.login_rejections.append(self.sim.next_seq())
             self.send("ConnectResponse", invalid_password=self.cfg.invalid_password)
 
     def _h_PingRequest(self, msg: Any) -> None:
@@ -318,6 +320,7 @@ class SimDevice:
         global _ROTATION
         self.sim = sim
         self.cfg = cfg or DeviceConfig()
+        self.login_rejections: list[int] = []   # sequence numbers at which a ConnectResponse(invalid_password=True) was produced
         global LAST_POLICY
         open_ = self.cfg.chunk_policy is None and not self.cfg.coalesce_replies and not self.cfg.coalesce_cuts
         if FORCED_POLICY is not None and open_:
